@@ -636,7 +636,8 @@ def r11c_one_entry_per_name(ctx):
     cands = []
     for f0 in crate.real_fns():
         if f0.kind == "method" and f0.ret == "std::vec::Vec<fixtures::types::FixtureDefinition>":
-            v = f0 if has_seen_test(f0) else ctx.inl(f0, depth=2, max_blocks=250, tag="view")
+            # always the inlined view: a stage extracted into a helper (called once per stage) counts once per call
+            v = ctx.inl(f0, depth=2, max_blocks=400, tag="view")
             if has_seen_test(v) and any((c.get("res") or "") == "std::vec::Vec::<T, A>::push" and "FixtureDefinition" in " ".join(c.get("targs", [])) for _b, c in v.calls()):
                 cands.append(v)
     # the cached wrapper inlines the builder too: keep the innermost (fewest blocks)
